@@ -566,6 +566,8 @@ func (p *simPipeline) complete(r *Rpc, err error) {
 			break
 		}
 	}
+	first := err != nil && !p.failed
+	after := err == nil && p.failed
 	if err != nil {
 		p.failed = true
 	}
@@ -574,10 +576,12 @@ func (p *simPipeline) complete(r *Rpc, err error) {
 	f := r.pfut
 	f.err = err
 	close(f.done)
-	if err != nil || closed {
+	if closed || after || (err != nil && !first) {
 		// a failed connection delivers nothing further
 		return
 	}
+	// like netPipeline / inmemPipeline, the exchange that failed is handed to the consumer too, with its error set and
+	// the caller's response object untouched
 	select {
 	case p.doneCh <- f:
 	case <-p.closed:
